@@ -1204,7 +1204,32 @@ def _(I, ctx, it, f):
         o = I.call_value(ctx, ctx.cur_crate, f, [ValRef(x), ValRef(best)]).variant
         if (mx and o != 'Less') or (not mx and o == 'Less'): best = x
     return SOME(best)
-@model('re:^<.* as (std::iter::)?Iterator>::(try_fold|try_for_each|rposition|last_mut)$')
+def _try_wrap(raw, acc):
+    """the success value of the `R: Try` type named last in the generic arguments of try_fold / try_for_each"""
+    from .util import split_top
+    m = re.search(r'::<(.*)>$', raw or '')
+    last = split_top(m.group(1))[-1].strip() if m else ''
+    last = re.sub(r'^(std|core)::\w+::', '', last)
+    if last.startswith('Result<'): return OK(acc)
+    if last.startswith('Option<'): return SOME(acc)
+    if last.startswith('ControlFlow<'): return Agg('ControlFlow', [acc], 'Continue', 0)
+    raise Unsupported('try_fold with an unknown Try type: ' + (raw or ''))
+
+
+@model('re:^<.* as (std::iter::)?Iterator>::(try_fold|try_for_each)$')
+def _(I, ctx, it, *a):
+    raw = ctx.cur_raw; crate = ctx.cur_crate
+    fold = ctx.cur_key.endswith('try_fold')
+    acc, f = (a[0], a[1]) if fold else (UNIT, a[0])
+    while True:
+        x = it_next(I, ctx, it)
+        if x.variant == 'None': return _try_wrap(raw, acc)
+        r = I.call_value(ctx, crate, f, [acc, x.fields[0]] if fold else [x.fields[0]])
+        if r.variant in ('Ok', 'Some', 'Continue'): acc = r.fields[0] if r.fields else UNIT
+        else: return r
+
+
+@model('re:^<.* as (std::iter::)?Iterator>::(rposition|last_mut)$')
 def _(I, ctx, *a): raise Unsupported('iterator adaptor ' + ctx.cur_key)
 
 
@@ -1298,3 +1323,44 @@ def _(I, ctx, it, f):
 def _(I, ctx, it, f): return MapIt(to_iter(I, ctx, it), f)
 @model('re:^<.* as (rayon::iter::)?ParallelIterator>::(collect)$')
 def _(I, ctx, it): return VecV(_drain(I, ctx, it))
+
+
+@model('re:^<&?(bool|u8|u16|u32|u64|usize|i8|i16|i32|i64|isize) as (std::ops::|core::ops::)?Not>::not$')
+def _(I, ctx, v):
+    v = deref(v)
+    if isinstance(v, bool): return not v
+    if isinstance(v, BV): return BV((~v.e) & ((1 << v.bits) - 1), v.bits, v.signed) if v.conc() else BV(~v.e, v.bits, v.signed)
+    return b_not(v)
+
+
+@model('re:^<.* as (itertools::)?Itertools>::(unique)$')
+def _(I, ctx, it):
+    out = []
+    for x in _drain(I, ctx, it):
+        if not any(ctx.branch(values_eq(I, ctx, x, y)) for y in out): out.append(x)
+    return ListIt(out)
+
+
+@model('itertools::chain', 're:^itertools::(free::)?chain$')
+def _(I, ctx, a, b):
+    from .models import ChainIt
+    return ChainIt(to_iter(I, ctx, a), to_iter(I, ctx, b))
+
+
+@model('re:^<(std::string::)?String as (std::fmt::|core::fmt::)?Write>::write_fmt$')
+def _(I, ctx, s, fa):
+    sink = []
+    if not render_args(I, ctx, fa, sink): raise Unsupported('write! into a String with Debug / options / symbolic numbers')
+    deref(s).b.extend(sink); return OK(UNIT)
+@model('re:^<(std::string::)?String as (std::fmt::|core::fmt::)?Write>::write_str$')
+def _(I, ctx, s, t):
+    deref(s).b.extend(str_bytes(t)); return OK(UNIT)
+@model('re:^<(std::string::)?String as (std::fmt::|core::fmt::)?Write>::write_char$')
+def _(I, ctx, s, c):
+    deref(s).b.extend(utf8_encode(ctx, c)); return OK(UNIT)
+
+
+@model('re:^(std|core)::array::<impl \\[.*; \\d+\\]>::map$')
+def _(I, ctx, arr, f):
+    crate = ctx.cur_crate
+    return [I.call_value(ctx, crate, f, [x]) for x in seq_items(arr)]
